@@ -455,26 +455,29 @@ class RDMol2StereoMolGraph:
 
     _tbp_atom_order_permutation_dict = MappingProxyType(
         {
-            1: (0, 1, 2, 3, 4),
-            2: (0, 1, 3, 2, 4),
-            3: (0, 1, 2, 4, 3),
-            4: (0, 1, 4, 2, 3),
-            5: (0, 1, 3, 4, 2),
-            6: (0, 1, 4, 3, 2),
-            7: (0, 2, 3, 4, 1),
-            8: (0, 2, 4, 3, 1),
-            9: (1, 0, 2, 3, 4),
-            11: (1, 0, 3, 2, 4),
-            10: (1, 0, 2, 4, 3),
-            12: (1, 0, 4, 2, 3),
-            13: (1, 0, 3, 4, 2),
-            14: (1, 0, 4, 3, 2),
-            15: (2, 0, 1, 3, 4),
-            16: (2, 0, 1, 4, 3),
-            17: (3, 0, 1, 2, 4),
-            18: (3, 0, 2, 1, 4),
-            19: (2, 0, 4, 1, 3),
-            20: (2, 0, 3, 1, 4),
+            # label: (axial, axial, equatorial, equatorial, equatorial) as
+            # indices into the neighbor order, arranged such that the
+            # resulting TrigonalBipyramidal has parity 1
+            1: (4, 0, 1, 2, 3),
+            2: (0, 4, 1, 2, 3),
+            3: (3, 0, 1, 2, 4),
+            4: (0, 3, 1, 2, 4),
+            5: (2, 0, 1, 3, 4),
+            6: (0, 2, 1, 3, 4),
+            7: (1, 0, 2, 3, 4),
+            8: (0, 1, 2, 3, 4),
+            9: (4, 1, 0, 2, 3),
+            11: (1, 4, 0, 2, 3),
+            10: (3, 1, 0, 2, 4),
+            12: (1, 3, 0, 2, 4),
+            13: (2, 1, 0, 3, 4),
+            14: (1, 2, 0, 3, 4),
+            15: (4, 2, 0, 1, 3),
+            20: (2, 4, 0, 1, 3),
+            16: (3, 2, 0, 1, 4),
+            19: (2, 3, 0, 1, 4),
+            17: (4, 3, 0, 1, 2),
+            18: (3, 4, 0, 1, 2),
         }
     )
     "adapted from http://opensmiles.org/opensmiles.html"
